@@ -10,12 +10,15 @@
      wf_ranges rs       every range satisfies 0 <= first <= last <= 0x10FFFF
      valid_rune ch      0 <= ch <= 0x10FFFF
      sem o s / denote   the set algebra a bracket expression s means under options o
-     elab s o           the CharSet the parser builds for s (scanCharSet + the node's case conversion)
+     elab s o           the CharSet the parser builds for s (scanCharSet + the node's case conversion).
+                        Since /repo commit dd13520 scanCharSet folds case (addLowercase, addCaseEquivalences)
+                        BEFORE it restores the negate flag and canonicalizes; the model follows that order
+                        (scan_char_set takes fuel and returns res).  elab_old is the order before the fix.
    cat_in (unicode.Is per category name, IsSpace, IsWordChar), simple_fold, to_lower are universally
    quantified oracles. *)
 From Verif Require Import Base.Prelude Model.CharClass Model.FoldD
   Proofs.CharClassRanges Proofs.CharClassProofs Proofs.CharClassOverlap Proofs.CharClassElab
-  Proofs.CharClassFold Proofs.CharClassFoldThm Proofs.CharClassCi Proofs.CharClassCi2 Proofs.CharClassCi3 Proofs.CharClassCi4 Proofs.CharClassCi5 Gen.CharClassGen Proofs.CharClassGenCheck.
+  Proofs.CharClassFold Proofs.CharClassFoldThm Proofs.CharClassCi Proofs.CharClassCi2 Proofs.CharClassCi3 Proofs.CharClassCi4 Proofs.CharClassCi5 Proofs.CharClassCi6 Gen.CharClassGen Proofs.CharClassGenCheck.
 
 (* ------------------------------------------------------------------------------------------------
    lookup_paths_agree: on a canonical class every lookup path is plain membership, for EVERY rune
@@ -200,13 +203,39 @@ Proof. intros. eapply char_in_denote_cs; eauto. Qed.
 Print Assumptions C16_char_in_denote_partial.
 
 (* Partial (2), IgnoreCase (alone or with ECMAScript / RE2): for oracles that agree with the generated
-   table on dom_t, every bracket expression whose code-point members lie in good_dom (all of ASCII,
-   all plain upper/lower pairs of Latin-1, Greek, Cyrillic: C16_bad_points; so in particular ranges
-   with ASCII endpoints), with positive ASCII-table shorthands / POSIX names and without negated
-   cased-letter categories (ci_syn_ok), nested subtraction included, and every rune z of the table:
+   table on dom_t and whose SimpleFold orbits outside the table stay outside it (outside_ok; both checked
+   against the running toolchain on every code point by leg c16-class-0), every bracket expression in
+   C16's IgnoreCase domain ci_syn_ok_ext, nested subtraction included, and every rune z of the table:
    CharIn on the class the parser builds = set algebra with the code-point members folded over their
-   SimpleFold orbits (CFold).  This is C16's IgnoreCase domain. *)
+   SimpleFold orbits (CFold).
+   C16's IgnoreCase domain (ci_syn_ok_ext = ci_syn_okx True, Proofs/CharClassCi4.v), per bracket level:
+     - a range or single member [a, b] whose runes all lie in good_dom (all of ASCII, all plain
+       upper/lower pairs of Latin-1, Greek, Cyrillic: C16_bad_points; so in particular ranges with
+       ASCII endpoints), OR
+     - a complement-shaped range [a, b] with a <= U+0080 and b >= U+10000 ("everything from a on":
+       [b-\x{10FFFF}], [\x01-\x{10FFFF}], [\x00-\x{10FFFE}], and with a good range [\x00-\x60b-\x{10FFFF}]),
+       provided some range of the same level contains 'i' or 'I' (always so when a <= 'i'; the range
+       contains U+0130, which lcTable lowers to 'i' although the two are not in one SimpleFold orbit);
+       these are the classes canonicalize rewrites into a negated normal form AFTER case folding;
+     - positive ASCII-table shorthands / POSIX names, any category but no NEGATED cased-letter category.
+   STATEMENT CHANGE (domain extension after /repo fix dd13520): the domain grew from ci_syn_ok to
+   ci_syn_ok_ext (ci_syn_ok implies it: ci_syn_ok_ext_of) and the oracle hypothesis outside_ok was added,
+   which the complement-shaped ranges need.  The previous statement is kept verbatim as
+   C16_char_in_denote_partial_ignorecase_table below. *)
 Theorem C16_char_in_denote_partial_ignorecase :
+  forall (cat_in : Z -> Z -> bool) (simple_fold to_lower : Z -> Z),
+    (forall x, In x dom_t -> simple_fold x = fold_t x /\ to_lower x = lower_t x) ->
+    outside_ok simple_fold ->
+    forall (o : opts) (s : csyn) (c : cls) (z : Z),
+      o_ci o = true -> wf_syn s -> ci_syn_ok_ext o s -> In z dom_t ->
+      elab cat_in simple_fold to_lower orbit_fuel s o = Ok c ->
+      char_in cat_in c z = denote cat_in simple_fold orbit_fuel (sem o s) z.
+Proof. intros cat_in sf tl Hag Hout o s c z Hci. apply char_in_denote_ci_ext; auto. Qed.
+Print Assumptions C16_char_in_denote_partial_ignorecase.
+
+(* the statement before the domain extension (members in good_dom only; nothing assumed about SimpleFold
+   outside the table) - still a theorem, for the fixed order of scanCharSet *)
+Theorem C16_char_in_denote_partial_ignorecase_table :
   forall (cat_in : Z -> Z -> bool) (simple_fold to_lower : Z -> Z),
     (forall x, In x dom_t -> simple_fold x = fold_t x /\ to_lower x = lower_t x) ->
     forall (o : opts) (s : csyn) (c : cls) (z : Z),
@@ -214,7 +243,39 @@ Theorem C16_char_in_denote_partial_ignorecase :
       elab cat_in simple_fold to_lower orbit_fuel s o = Ok c ->
       char_in cat_in c z = denote cat_in simple_fold orbit_fuel (sem o s) z.
 Proof. intros cat_in sf tl Hag o s c z Hci. apply char_in_denote_ci; auto. Qed.
-Print Assumptions C16_char_in_denote_partial_ignorecase.
+Print Assumptions C16_char_in_denote_partial_ignorecase_table.
+
+(* The order of scanCharSet BEFORE /repo fix dd13520 (canonicalize the finished class, then fold case:
+   elab_old) refutes the same statement: [\x00-\x60b-\x{10FFFF}] names 'A', canonicalize rewrote it to
+   [^a], folding the EXCLUDED 'a' gave [^Aa], and the class rejected 'A' (and 'a').  The witness lies in
+   the extended domain only - C16's former IgnoreCase domain had no complement-shaped ranges, which is
+   why the defect was invisible to it. *)
+Theorem C16_char_in_denote_old_order_refuted :
+  ~ (forall (cat_in : Z -> Z -> bool) (simple_fold to_lower : Z -> Z),
+       (forall x, In x dom_t -> simple_fold x = fold_t x /\ to_lower x = lower_t x) ->
+       outside_ok simple_fold ->
+       forall (o : opts) (s : csyn) (c : cls) (z : Z),
+         o_ci o = true -> wf_syn s -> ci_syn_ok_ext o s -> In z dom_t ->
+         elab_old cat_in simple_fold to_lower orbit_fuel s o = Ok c ->
+         char_in cat_in c z = denote cat_in simple_fold orbit_fuel (sem o s) z).
+Proof.
+  intros H.
+  set (s := CSyn false [IRange 0 96; IRange 98 1114111] None).
+  specialize (H (fun _ _ => false) fold_t lower_t (fun x _ => conj eq_refl eq_refl) outside_ok_fold_t
+                (Opts true false false) s (Cls [(65, 65); (97, 97)] [] None true false None) 65 eq_refl).
+  assert (W : wf_syn s).
+  { cbn [wf_syn s]. split; [|exact I]. repeat (apply Forall_cons; [unfold wf_item, max_rune; lia|]). apply Forall_nil. }
+  assert (K : ci_syn_ok_ext (Opts true false false) s).
+  { unfold ci_syn_ok_ext. cbn [ci_syn_okx s]. split; [|exact I].
+    apply Forall_cons; [cbn [ci_item_okx]; left; intros x Hx; apply ascii_good; lia|].
+    apply Forall_cons; [|apply Forall_nil]. cbn [ci_item_okx]. right.
+    split; [exact I|]. split; [lia|]. split; [lia|]. exists 0, 96. split; [left; reflexivity|lia]. }
+  assert (D : In 65 dom_t) by (apply zmem_In; vm_compute; reflexivity).
+  specialize (H W K D). assert (E : elab_old (fun _ _ : Z => false) fold_t lower_t orbit_fuel s (Opts true false false) =
+                                      Ok (Cls [(65, 65); (97, 97)] [] None true false None)) by (vm_compute; reflexivity).
+  specialize (H E). clear E D K W. vm_compute in H. discriminate H.
+Qed.
+Print Assumptions C16_char_in_denote_old_order_refuted.
 
 (* ... and the class the parser builds is canonical at every level (so C16_lookup_paths_agree
    applies to it, also after PrepareCharSetASCIIBitmaps). *)
@@ -229,6 +290,28 @@ Proof.
   pose proof (no_bitmaps_ok cat_in c B) as C. repeat split; auto. apply prepare_bitmaps_ok. exact C.
 Qed.
 Print Assumptions C16_elab_canonical.
+
+(* the same under IgnoreCase, on C16's IgnoreCase domain: whichever normal form canonicalize picks
+   after case folding, and after the tree pass expanded the finished class once more *)
+Theorem C16_elab_canonical_ignorecase :
+  forall (cat_in : Z -> Z -> bool) (simple_fold to_lower : Z -> Z),
+    (forall x, In x dom_t -> simple_fold x = fold_t x /\ to_lower x = lower_t x) ->
+    outside_ok simple_fold ->
+    forall (o : opts) (s : csyn) (c : cls),
+      o_ci o = true -> wf_syn s -> ci_syn_ok_ext o s ->
+      elab cat_in simple_fold to_lower orbit_fuel s o = Ok c ->
+      canonical c /\ bitmaps_ok cat_in c /\ bitmaps_ok cat_in (prepare_ascii_bitmap cat_in c).
+Proof.
+  intros cat_in sf tl Hag Hout o s c Hci Hw Hok He.
+  destruct (elab_canonical_ci_ext cat_in sf tl Hag Hout o Hci s c Hw Hok He) as [A B].
+  pose proof (no_bitmaps_ok cat_in c B) as C. repeat split; auto. apply prepare_bitmaps_ok. exact C.
+Qed.
+Print Assumptions C16_elab_canonical_ignorecase.
+
+(* the generated table itself, extended by the identity, is an oracle with orbits that stay outside *)
+Theorem C16_table_oracle_outside_ok : outside_ok fold_t.
+Proof. exact outside_ok_fold_t. Qed.
+Print Assumptions C16_table_oracle_outside_ok.
 
 (* ------------------------------------------------------------------------------------------------
    case_equiv_closed (IgnoreCase), CLOSED statement over the finite generated table Model/FoldD.v
@@ -328,6 +411,44 @@ Proof.
   { cbn [ci_syn_ok]. split; [apply Forall_cons; [|apply Forall_nil]|split; [apply Forall_cons; [|apply Forall_nil]|exact I]];
       cbn [ci_item_ok]; intros x Hx; apply ascii_good; lia. }
   eexists. split; [vm_compute; reflexivity|]. split; [reflexivity|]. split; vm_compute; reflexivity.
+Qed.
+
+(* complement-shaped ranges under IgnoreCase, with the table as oracle: the hypotheses of
+   C16_char_in_denote_partial_ignorecase hold;
+   (?i)[\x00-\x60b-\x{10FFFF}] names 'A', so it contains 'a': the class is everything (before fix dd13520
+   it was [^Aa], see C16_char_in_denote_old_order_refuted);
+   (?i)[\x00-\x5a\x5c-\x{10FFFF}] leaves out '[' only: canonicalize flips AFTER folding to [^\x5b] *)
+Example C16_witness_ignorecase_complement :
+  let cat := fun (_ _ : Z) => false in
+  let o := Opts true false false in
+  let s1 := CSyn false [IRange 0 96; IRange 98 1114111] None in
+  let s2 := CSyn false [IRange 0 90; IRange 92 1114111] None in
+  wf_syn s1 /\ ci_syn_ok_ext o s1 /\ wf_syn s2 /\ ci_syn_ok_ext o s2 /\ outside_ok fold_t /\
+  elab cat fold_t lower_t orbit_fuel s1 o = Ok (Cls [(0, 1114111)] [] None false true None) /\
+  map (denote cat fold_t orbit_fuel (sem o s1)) [65; 97; 98; 8490] = [true; true; true; true] /\
+  elab cat fold_t lower_t orbit_fuel s2 o = Ok (Cls [(91, 91)] [] None true false None) /\
+  map (char_in cat (Cls [(91, 91)] [] None true false None)) [90; 91; 92; 107; 8490] = [true; false; true; true; true] /\
+  map (denote cat fold_t orbit_fuel (sem o s2)) [90; 91; 92; 107; 8490] = [true; false; true; true; true].
+Proof.
+  cbn zeta.
+  assert (W : forall a, 0 <= a -> a <= 126 ->
+                wf_syn (CSyn false [IRange 0 a; IRange (a + 2) 1114111] None) /\
+                ci_syn_ok_ext (Opts true false false) (CSyn false [IRange 0 a; IRange (a + 2) 1114111] None)).
+  { intros a H0 H1. split.
+    - cbn [wf_syn]. split; [|exact I]. repeat (apply Forall_cons; [unfold wf_item, max_rune; lia|]). apply Forall_nil.
+    - unfold ci_syn_ok_ext. cbn [ci_syn_okx]. split; [|exact I].
+      apply Forall_cons; [cbn [ci_item_okx]; left; intros x Hx; apply ascii_good; lia|].
+      apply Forall_cons; [|apply Forall_nil]. cbn [ci_item_okx]. right.
+      split; [exact I|]. split; [lia|]. split; [lia|].
+      destruct (Z.le_gt_cases 73 a) as [G|G].
+      + exists 0, a. split; [left; reflexivity|lia].
+      + exists (a + 2), 1114111. split; [right; left; reflexivity|lia]. }
+  destruct (W 96 ltac:(lia) ltac:(lia)) as [W1 K1].
+  destruct (W 90 ltac:(lia) ltac:(lia)) as [W2 K2].
+  split; [exact W1|]. split; [exact K1|]. split; [exact W2|]. split; [exact K2|].
+  split; [exact outside_ok_fold_t|].
+  split; [vm_compute; reflexivity|]. split; [vm_compute; reflexivity|].
+  split; [vm_compute; reflexivity|]. split; vm_compute; reflexivity.
 Qed.
 
 (* unsorted, overlapping, abutting ranges: canonicalize merges them; six ranges go through the binary search *)
